@@ -1380,6 +1380,32 @@ def family_models(ctx):
         m.ir_version = 9
         fd = [{"x": f32(2, 3, lo=-3, hi=3), "cond": np.array(c)} for c in (True, False)]
         out.append((f"rewrites_only_in_nested_{where}", m.SerializeToString(), fd, ["rewrite", "rewrite_pass_ir", "rewrite_two_node", "optimize"], True))
+    # ---- attribute-form operators of OLD opsets (the default rules dropout_zero / dropout_inference only match them there): a
+    #      Dropout whose mask output is still read by a node, returned, or read inside a branch must survive; an unused mask may go
+    for ops_v in (7, 10, 11):
+        for use in ("node", "output", "branch", "unused"):
+            for ratio in (0.0, None, 0.5):
+                kw = {} if ratio is None else {"ratio": ratio}
+                nodes = [h.make_node("Relu", ["x"], ["r"]), h.make_node("Dropout", ["r"], ["d", "mask"] if use != "unused" else ["d"], **kw)]
+                outs = [h.make_tensor_value_info("z", T.FLOAT, [2, 3])]
+                if use == "node":
+                    nodes += [h.make_node("Cast", ["mask"], ["mf"], to=T.FLOAT), h.make_node("Add", ["d", "mf"], ["z"])]
+                elif use == "output":
+                    nodes += [h.make_node("Neg", ["d"], ["z"])]
+                    outs.append(h.make_tensor_value_info("mask", T.BOOL if ops_v >= 10 else T.FLOAT, [2, 3]))   # Dropout-7: the mask has the data type
+                elif use == "branch":
+                    tb = h.make_graph([h.make_node("Cast", ["mask"], ["tmf"], to=T.FLOAT), h.make_node("Add", ["d", "tmf"], ["tz"])], "tb", [],
+                                      [h.make_tensor_value_info("tz", T.FLOAT, [2, 3])])
+                    eb = h.make_graph([h.make_node("Neg", ["d"], ["ez"])], "eb", [], [h.make_tensor_value_info("ez", T.FLOAT, [2, 3])])
+                    nodes += [h.make_node("If", ["cond"], ["z"], then_branch=tb, else_branch=eb)]
+                else:
+                    nodes += [h.make_node("Neg", ["d"], ["z"])]
+                gin = [h.make_tensor_value_info("x", T.FLOAT, [2, 3])] + ([h.make_tensor_value_info("cond", T.BOOL, [])] if use == "branch" else [])
+                g = h.make_graph(nodes, "olddrop", gin, outs)
+                m = h.make_model(g, opset_imports=[h.make_opsetid("", ops_v)])
+                m.ir_version = 6
+                fd = [dict({"x": f32(2, 3, lo=-3, hi=3)}, **({"cond": np.array(c)} if use == "branch" else {})) for c in (True, False)]
+                out.append((f"old_opset{ops_v}_dropout_ratio{ratio}_mask_{use}", m.SerializeToString(), fd, ["optimize", "rewrite", "optimize_ir_i1_noinf"], True))
     # ---- models with symbolic dims, judged at several concrete bindings (feeds of different shapes):
     #      ScatterND over a Range built from Shape<start=s>(data) - a full overwrite only when s = 0 and the symbols agree
     for start in (0, 1):
